@@ -303,8 +303,28 @@ def _norm(lines):
     return out
 
 
+def run_replay(path):
+    """./check C11 --replay <file>: re-run one recorded script on the real endpoint."""
+    import json
+    rec = json.load(open(path))
+    d = rec['detail']
+    script = [tuple(tuple(x) if isinstance(x, list) else x for x in st) for st in d['script']]
+    lines, notes, full = run_script(d['endpoint'], script, seed=1)
+    verdicts, _ = tlc.validate_traces(SPEC, 'WriteBufTrace', 'WriteBufTrace.cfg', [lines], shards=1)
+    clause, line = verdicts[0]
+    for i, ln in enumerate(full, 1):
+        print('%3d %s' % (i, ln))
+    if clause:
+        print('VIOLATION property=C11 replay=%s clause=%s line=%d' % (path, clause, line))
+        return 1
+    print('replay accepted: no clause of C11 fails on this tree')
+    return 0
+
+
 def run(tier, replay=None):
     use_repo()
+    if replay:
+        return run_replay(replay)
     ctx = Ctx('C11', tier)
     rnd = random.Random(ctx.seed * 7919 + 11)
     quick = tier == 'quick'
